@@ -487,6 +487,9 @@ class PoolTheory(Theory):
             nv = v
         else:
             raise Unsupported("Semaphore._value := non-number")
+        # the representation invariant of asyncio.Semaphore (unit asyncio.locks.Semaphore assumes it): the counter is never
+        # negative - `locked()` only tests `_value == 0`, so a negative counter would admit every acquirer
+        self.ip.require(st, "pre:Semaphore._value:=:the-counter-is-never-negative", z3.Or(nv.inf, nv.k >= 0), ("C15", "C01"))
         n = SemV(nv, sem.g, sem.P, sem.out, sem.ident)
         n.tokarr = sem.tokarr
         self.ip.place_set(st, place, n)
@@ -709,6 +712,17 @@ class PoolTheory(Theory):
                 else:
                     out.append((s2, Exit(Exit.RAISE, ExcV("ValueError", []))))
             return out
+        if isinstance(val, SeqV) and name == "reverse" and not pos:
+            # list.reverse(): in place, element j becomes the old element n-1-j
+            if place is None:
+                raise Unsupported("reverse on a detached list")
+            new = [fresh("reversed", a.sort()) for a in val.arrs]
+            j = z3.Int("j!rev")
+            for a_old, a_new in zip(val.arrs, new):
+                st.assume(z3.ForAll([j], z3.Implies(z3.And(0 <= j, j < val.n), z3.Select(a_new, j) == z3.Select(a_old, val.n - 1 - j))))
+            ip.place_set(st, place, SeqV(val.n, new, val.layout, val.mutable))
+            st.aux["nonfragment"] = "list.reverse()"
+            return [(st, NoneV())]
         if isinstance(val, SeqV) and name == "append":
             if place is None:
                 raise Unsupported("append on a detached list")
